@@ -18,11 +18,13 @@ import (
 	"bytes"
 	"encoding/json"
 	"fmt"
+	"hash/fnv"
 	"io"
 	"os"
 	"os/exec"
 	"regexp"
 	"runtime/debug"
+	"sort"
 	"strings"
 	"syscall"
 	"time"
@@ -33,8 +35,8 @@ import (
 
 const (
 	probeEnv        = "VERIF_FE_PROBE"
-	probeMemKiB     = 3 << 20   // ulimit -v of the child: 3 GiB of address space
-	probeMaxStack   = 256 << 20 // maximal goroutine stack of the child
+	probeMemKiB     = 3 << 20  // ulimit -v of the child: 3 GiB of address space
+	probeMaxStack   = 32 << 20 // maximal goroutine stack of the child (nesting families: 8x)
 	probeTimeout    = 2 * time.Second
 	probeTimeoutBig = 25 * time.Second // nesting families: legitimately slower inputs
 )
@@ -49,7 +51,11 @@ func init() {
 	if os.Getenv(probeEnv) == "" {
 		return
 	}
-	debug.SetMaxStack(probeMaxStack)
+	maxStack := probeMaxStack
+	if os.Getenv(probeEnv) == "big" {
+		maxStack *= 8
+	}
+	debug.SetMaxStack(maxStack)
 	if null, err := os.OpenFile("/dev/null", os.O_WRONLY, 0); err == nil {
 		os.Stdout = null
 	}
@@ -60,6 +66,14 @@ func init() {
 	var in probeInput
 	if json.Unmarshal(b, &in) != nil {
 		os.Exit(3)
+	}
+	if os.Getenv(probeEnv) == "show" {
+		// debugging aid: VERIF_FE_PROBE=show hmsworker < {"mode":"analyze","mods":{"main":"..."}}
+		o := realParse(in.Mods["main"], "main")
+		fmt.Fprintf(os.Stderr, "parse: panic=%q hard=%q soft=%q\n", o.Panic, o.Hard, o.Soft)
+		a := Analyze(in.Mods, true)
+		fmt.Fprintf(os.Stderr, "analyze: %s\n", a.Obs.String())
+		os.Exit(0)
 	}
 	func() {
 		defer func() { recover() }() // a panic is not fatal: the parent observes it in-process
@@ -86,6 +100,7 @@ var reHelperFrame = regexp.MustCompile(`^(lexer\.|errors\.|lexer/|parser\.\(\*Pa
 func culpritFunc(dump string) string {
 	lines := strings.Split(dump, "\n")
 	first := ""
+	var fns []string
 	inG := false
 	for i := 0; i+1 < len(lines); i++ {
 		if strings.HasPrefix(lines[i], "goroutine ") {
@@ -106,6 +121,21 @@ func culpritFunc(dump string) string {
 		if first == "" {
 			first = fn
 		}
+		fns = append(fns, fn)
+	}
+	// a function that occurs over and over is a runaway recursion: name the most frequent one
+	count := map[string]int{}
+	best := ""
+	for _, fn := range fns {
+		count[fn]++
+		if count[fn] > count[best] || (count[fn] == count[best] && len(fn) > len(best)) {
+			best = fn
+		}
+	}
+	if count[best] >= 8 {
+		return best
+	}
+	for _, fn := range fns {
 		if !reHelperFrame.MatchString(fn) {
 			return fn
 		}
@@ -117,12 +147,32 @@ func culpritFunc(dump string) string {
 // timeout without having been seen inside repository code (it may not have been scheduled
 // yet on a loaded machine) proves nothing: the probe is repeated with five times the timeout.
 func guardRun(mode string, mods map[string]string, timeout time.Duration) guardVerdict {
+	// identical inputs (e.g. a token prefix that is also a byte prefix) are probed once per worker
+	h := fnv.New64a()
+	h.Write([]byte(mode))
+	names := make([]string, 0, len(mods))
+	for n := range mods {
+		names = append(names, n)
+	}
+	sort.Strings(names)
+	for _, n := range names {
+		fmt.Fprintf(h, "\x00%s\x00%s", n, mods[n])
+	}
+	key := h.Sum64()
+	if v, ok := guardCache[key]; ok {
+		return v
+	}
 	v, inRepo := guardRunOnce(mode, mods, timeout)
 	for try := 0; v.Fatal && !inRepo && try < 2; try++ {
 		v, inRepo = guardRunOnce(mode, mods, 5*timeout)
 	}
+	if len(guardCache) < 1<<16 {
+		guardCache[key] = v
+	}
 	return v
 }
+
+var guardCache = map[uint64]guardVerdict{}
 
 func guardRunOnce(mode string, mods map[string]string, timeout time.Duration) (guardVerdict, bool) {
 	exe, err := os.Executable()
@@ -131,7 +181,11 @@ func guardRunOnce(mode string, mods map[string]string, timeout time.Duration) (g
 	}
 	in, _ := json.Marshal(probeInput{Mode: mode, Mods: mods})
 	cmd := exec.Command("/bin/sh", "-c", fmt.Sprintf("ulimit -v %d; exec \"$0\"", probeMemKiB), exe)
-	cmd.Env = append(os.Environ(), probeEnv+"=1", "GOTRACEBACK=crash")
+	mode1, maxStack := "1", probeMaxStack
+	if timeout >= probeTimeoutBig {
+		mode1, maxStack = "big", 8*probeMaxStack
+	}
+	cmd.Env = append(os.Environ(), probeEnv+"="+mode1, "GOTRACEBACK=crash")
 	cmd.Stdin = bytes.NewReader(in)
 	var stderr bytes.Buffer
 	cmd.Stderr = &stderr
@@ -177,7 +231,7 @@ func guardRunOnce(mode string, mods map[string]string, timeout time.Duration) (g
 		Fatal: true,
 		Class: "FATAL:" + reason + ":" + fn,
 		Detail: fmt.Sprintf("NOT run in-process: the input was first run in a child process (address space %d KiB, max stack %d MiB, timeout %s) because it matches the pattern of a known fatal defect; the child did not return: %s at %s\n%s",
-			probeMemKiB, probeMaxStack>>20, timeout, reason, site, head),
+			probeMemKiB, maxStack>>20, timeout, reason, site, head),
 	}, fn != ""
 }
 
@@ -205,43 +259,59 @@ var reImportFrom = regexp.MustCompile(`from\s+([A-Za-z_][A-Za-z0-9_]*)`)
 // feSuspiciousGraph over-approximates the inputs of the import-graph recursion: the module
 // texts mention each other in a way that closes a cycle.
 func feSuspiciousGraph(mods map[string]string) bool {
-	edges := map[string][]string{}
-	for name, text := range mods {
-		for _, m := range reImportFrom.FindAllStringSubmatch(text, -1) {
-			edges[name] = append(edges[name], m[1])
-		}
-	}
+	cyc, _ := feReachable(mods)
+	return cyc
+}
+
+// feReachable walks the import edges (as far as a regular expression sees them) from the
+// entry module; it reports whether a cycle is reachable and which modules are.
+func feReachable(mods map[string]string) (cyclic bool, reach []string) {
 	state := map[string]int{}
-	var dfs func(n string) bool
-	dfs = func(n string) bool {
+	var dfs func(n string)
+	dfs = func(n string) {
 		state[n] = 1
-		for _, m := range edges[n] {
-			if _, ok := mods[m]; !ok {
+		reach = append(reach, n)
+		for _, m := range reImportFrom.FindAllStringSubmatch(mods[n], -1) {
+			t := m[1]
+			if _, ok := mods[t]; !ok {
 				continue
 			}
-			if state[m] == 1 || (state[m] == 0 && dfs(m)) {
-				return true
+			switch state[t] {
+			case 1:
+				cyclic = true
+			case 0:
+				dfs(t)
 			}
 		}
 		state[n] = 2
-		return false
 	}
-	for n := range mods {
-		if state[n] == 0 && dfs(n) {
-			return true
-		}
-	}
-	return false
+	dfs("main")
+	return cyclic, reach
 }
 
-// guardMods runs the probe if any module text or the module graph is suspicious.
+var susTextCache = map[string]bool{}
+
+// guardMods runs the probe if the module graph reachable from the entry module, or the text
+// of a reachable module, is suspicious.
 func guardMods(mode string, mods map[string]string) guardVerdict {
-	sus := feSuspiciousGraph(mods)
-	for _, t := range mods {
+	sus, reach := feReachable(mods)
+	for _, n := range reach {
 		if sus {
 			break
 		}
-		sus = feSuspiciousText(t)
+		t := mods[n]
+		if len(t) > 256 {
+			v, ok := susTextCache[t]
+			if !ok {
+				v = feSuspiciousText(t)
+				if len(susTextCache) < 4096 {
+					susTextCache[t] = v
+				}
+			}
+			sus = v
+		} else {
+			sus = feSuspiciousText(t)
+		}
 	}
 	if !sus {
 		return guardVerdict{}
